@@ -49,7 +49,29 @@ def classify_crash(stderr: str, rc: int) -> str:
     return "ub crash_rc%d" % rc
 
 
+# `reopen` (harness) also observes EVERY per-field getter of every track through the handles it holds before closing
+# and through the handles it re-obtains after loading; a difference is appended to its answer as
+# " GETTERS-DIFFER <text>".  The suffix is taken off here (the model's `reopen` answers without it) and kept for the
+# C10 plugin, which owns the oracle "what a getter said before closing it says after reopening".
+GETTER_DIFFS = []          # (script prefix up to the reopen line, text)
+GETTER_MARK = " GETTERS-DIFFER "
+
+
+def _take_getter_diffs(lines, outputs):
+    for i, o in enumerate(outputs):
+        if GETTER_MARK in o:
+            head, text = o.split(GETTER_MARK, 1)
+            outputs[i] = head
+            GETTER_DIFFS.append((list(lines[:i + 1]), text))
+    return outputs
+
+
 def run_harness_script(lines, watchdog=10, env_extra=None, cwd=None, stateless=False, timeout=None):
+    outputs, reports = _run_harness_script(lines, watchdog, env_extra, cwd, stateless, timeout)
+    return _take_getter_diffs(lines, outputs), reports
+
+
+def _run_harness_script(lines, watchdog=10, env_extra=None, cwd=None, stateless=False, timeout=None):
     """Run one script.  Returns (outputs, crash_reports).  A crashed line yields
     'ub <kind>'; for stateless scripts execution resumes after it, otherwise
     the remaining lines get 'skipped-after-crash'."""
